@@ -825,6 +825,24 @@ pub mod awkward_phantom {
         metas![S<u8>]
     }
 }
+pub mod awkward_compact_unit {
+    use super::*;
+    /// `()` is `HasCompact`; polkadot's `MultiAddress<AccountId, ()>` instantiates a compact
+    /// field with it through a type parameter, here it is written out.
+    #[derive(TypeInfo)]
+    pub struct S {
+        #[codec(compact)]
+        pub nothing: (),
+        pub also: Compact<()>,
+    }
+    #[derive(TypeInfo)]
+    pub enum E {
+        A(#[codec(compact)] ()),
+    }
+    pub fn metas() -> Vec<MetaType> {
+        metas![S, E]
+    }
+}
 pub mod awkward_cow {
     use super::*;
     /// A user type whose identifier happens to be `Cow`.
@@ -998,6 +1016,7 @@ pub fn families() -> Vec<Entry> {
         ("awkward_duration", awkward_duration::metas()),
         ("awkward_phantom", awkward_phantom::metas()),
         ("awkward_cow", awkward_cow::metas()),
+        ("awkward_compact_unit", awkward_compact_unit::metas()),
         ("awkward_cow_generic", awkward_cow_generic::metas()),
         (
             "mix_small",
